@@ -189,10 +189,10 @@ def sections(tier):
     PSD_TO[0] = 0 if tier == 'quick' else 120000   # quick: PSD by lemma chain only; thorough: also SOS certificate + direct query
     if tier == 'quick':
         plan = [('X1s', 60000, 170), ('X1', 60000, 170), ('X4r', 60000, 170), ('X2', 10000, 170), ('X5', 10000, 170)]
-        eplan = [('X1s', 0), ('X1', 1), ('X2', 0)]
+        eplan = [('X1s', 0), ('X1', 1), ('X2', 0), ('X5', 0), ('X5', 1)]
     else:
         plan = [('X1s', 120000, 1200), ('X1', 120000, 1200), ('X4r', 120000, 1200), ('X2', 120000, 1200), ('X3', 120000, 1200)]
-        eplan = [(c, k) for c in ('X1s', 'X1', 'X4r', 'X2', 'X3') for k in range(3)]
+        eplan = [(c, k) for c in ('X1s', 'X1', 'X4r', 'X2', 'X3', 'X5') for k in range(3)]
     for c, to, bud in plan:
         secs.append(S('D:' + c, diffusivity_laws(c), timeout_ms=to, budget_s=bud, replayer='D', config=c, maxpaths=16))
     for c, k in eplan:
@@ -224,8 +224,8 @@ def main():
         ],
         explanation='Real diffusivity / elastodiffusion executed on z3 terms; symmetry, invariance under every point-group operation '
                     'and positive semidefiniteness decided by z3 for all energies/prefactors (diffusivity) and all dipoles (elastodiffusion).',
-        bounds='diffusivity: X1s, X1, X4r (quick) + X2, X3 (thorough); elastodiffusion: X1s, X1, X2 one grid instance each (quick), '
-               '5 crystals x 3 instances (thorough)')
+        bounds='diffusivity: X1s, X1, X4r (quick) + X2, X3 (thorough); elastodiffusion: X1s, X1, X2, X5 (three coupled site classes) grid instances (quick), '
+               '6 crystals x 3 instances (thorough)')
     chk.run(sections(chk.tier))
     chk.finish()
 
